@@ -37,6 +37,9 @@ type Scenario struct {
 	// default) first, which the preemption budget makes up for.
 	Self      bool
 	Unordered bool
+	// Skip leaves a pair of kinds out (e.g. two requests on the same session, whose outcome legitimately depends on
+	// their order).
+	Skip func(a, b string) bool
 }
 
 func defaultObserve(resp *fasthttp.Response) string {
@@ -76,7 +79,7 @@ func Run(r *core.Run, prefix string, scenarios []Scenario, bound int) {
 		}
 		for i, qa := range sc.Reqs {
 			for j, qb := range sc.Reqs {
-				if i == j && !sc.Self || sc.Unordered && j < i {
+				if i == j && !sc.Self || sc.Unordered && j < i || sc.Skip != nil && sc.Skip(qa.Name, qb.Name) {
 					continue
 				}
 				qa, qb := qa, qb
